@@ -19,6 +19,8 @@ WHAT = {
                               "was made although RetryPolicy.Attempt answered false",
     "retry-budget-miscounted": "RetryPolicy.Attempt of a budget policy answered differently from "
                                "'Attempts() <= NumRetries' (NumRetries = number of times to retry)",
+    "attempts-miscounted": "Attempts(), which the retry policy consults, is not the number of attempts made so far "
+                           "(Query/Batch.attempt feed the shared counter)",
     "retry-wrong-host": "a retry did not go where the policy's decision says (Retry: same host, RetryNextHost: "
                         "the next usable host offered by the host selection policy)",
     "retry-without-decision": "a retry was made without asking RetryPolicy.GetRetryType",
@@ -201,8 +203,18 @@ def run(ctx):
     fsums = [json.loads(l[9:]) for l in out2.splitlines() if l.startswith("VFC13SUM ")]
     if len(fsums) != nfree:
         raise vf.Inconclusive("free-running driver: %d summaries for %d executions\n%s" % (len(fsums), nfree, out2[-3000:]))
+    # ---------------------------------------------------------------- 3b. end to end: real Session over scripted nodes
+    ep = os.path.join(ctx.tmp, "c13_e2e_traces.ndjson")
+    ne2e = 300 if quick else 3000
+    rc, out3 = vf.run_gotest(ctx, binary, "^TestVfC13E2E$", env={"VF_TRACES": ep, "VF_NSTMTS": ne2e, "VF_IDBASE": 2000000},
+                             timeout=900)
+    esums = [json.loads(l[9:]) for l in out3.splitlines() if l.startswith("VFC13SUM ")]
+    if len(esums) != ne2e:
+        raise vf.Inconclusive("end-to-end driver: %d summaries for %d statements\n%s" % (len(esums), ne2e, out3[-3000:]))
     traces = _split_traces(rp)
     traces.update(_split_traces(fp))
+    traces.update(_split_traces(ep))
+    fsums = fsums + esums
     skipped = [s for s in sums + fsums if s.get("skipped")]
     sums = [s for s in sums if not s.get("skipped")]
     fsums = [s for s in fsums if not s.get("skipped")]
@@ -214,8 +226,8 @@ def run(ctx):
         if not any(s["hang"] for s in sumby.values()):
             raise vf.Inconclusive("cases were skipped without a recorded hang")
         ctx.log("%d cases skipped after %d executions hung" % (len(skipped), sum(1 for s in sumby.values() if s["hang"])))
-    ctx.log("real executions recorded: %d replayed (%d exactly as the model behaviour), %d free running" % (
-        len(sums), sum(1 for s in sums if s["exact"]), len(fsums)))
+    ctx.log("real executions recorded: %d replayed (%d exactly as the model behaviour), %d free running, %d end to end" % (
+        len(sums), sum(1 for s in sums if s["exact"]), len(fsums) - len(esums), len(esums)))
 
     # ---------------------------------------------------------------- 4. TLC over the real traces
     mon, acc, tst, ttr = _tlc_traces(ctx, traces, 6 if quick else 14)
@@ -238,7 +250,9 @@ def run(ctx):
         controls=dict(defect_model_violates="NonIdemNeverRetried", bound_reached="budget + executions (5 = 2 + 3)",
                       tempting_bound_violated="budget + 1"),
         model_behaviours_replayed=len(cases), sequential_behaviours=len(seq_cases), concurrent_behaviours=len(conc_cases),
-        replayed_exactly=exact, free_running_executions=len(fsums),
+        replayed_exactly=exact, free_running_executions=len(fsums) - len(esums), end_to_end_statements=len(esums),
+        statement_kinds=dict(collections.Counter("%s%s" % (t[0].get("stmt", "?"), "+observer" if t[0].get("observer") else "")
+                                                 for t in traces.values())),
         real_traces=len(traces), real_traces_conforming=len(acc), real_traces_with_property_violation=nviol,
         real_traces_with_concurrent_executions=multi,
         trace_validation_states=tst, trace_validation_transitions=ttr,
@@ -249,7 +263,8 @@ def run(ctx):
         "bounded scenarios: <= 3-4 offered hosts, retry budgets 0..2 (and two non-monotone Attempt functions), "
         "speculative attempts 0..2, every outcome script the budgets admit",
         "the connection refuses a cancelled context before sending (Conn.exec's first statement), as the fake execute does",
-        "attempts reach 'servers' = calls of ExecutableQuery.execute on a connection of the host; the wire is not involved",
+        "in-package level: attempts reach 'servers' = calls of ExecutableQuery.execute on a connection of the host; "
+        "end-to-end level (sequential statements only, no speculation, no cancellation): requests received by scripted nodes",
     ]
 
 
@@ -305,7 +320,7 @@ def _verdicts(ctx, cases, traces, sumby, mon, acc):
         if s["panic"]:
             keys.append("executor-panic")
         tr = traces[tid]
-        hdr = {k: tr[0][k] for k in ("hosts", "polkind", "poln", "allow", "k", "idem", "policy", "mode")}
+        hdr = {k: tr[0][k] for k in ("hosts", "polkind", "poln", "allow", "k", "idem", "policy", "mode", "stmt", "observer") if k in tr[0]}
         for key in keys:
             perkey[key] += 1
             if perkey[key] > 25:
